@@ -8,6 +8,7 @@ mod codec;
 mod store;
 mod world;
 mod invite;
+mod mediaw;
 
 fn main() {
     let args: Vec<String> = std::env::args().collect();
@@ -16,6 +17,7 @@ fn main() {
         Some("mgr") => mgr::main(&args[2..]),
         Some("world") => world::main(&args[2..]),
         Some("invite") => invite::main(&args[2..]),
+        Some("mediaw") => mediaw::main(&args[2..]),
         Some("leak") => leak::main(&args[2..]),
         Some("appmsg") => appmsg::main(&args[2..]),
         Some("atrest") => atrest::main(&args[2..]),
